@@ -12,6 +12,18 @@ Proof.
   unfold inl. cbn. rewrite !orb_true_iff, !Nat.eqb_eq. intros [X|[X|X]]; try discriminate; subst; reflexivity.
 Qed.
 
+Lemma filt_push k (l : list cb) n :
+  map snd (filter (fun c => fst c =? k) l) = seq 0 n ->
+  map snd (filter (fun c => fst c =? k) (l ++ [(k, n)])) = seq 0 (S n).
+Proof.
+  intros H. rewrite seq_S, filter_app, map_app. f_equal; [exact H|]. cbn. rewrite Nat.eqb_refl. reflexivity.
+Qed.
+Lemma filt_push_other k k' (l : list cb) x : k' <> k ->
+  map snd (filter (fun c => fst c =? k) (l ++ [(k', x)])) = map snd (filter (fun c => fst c =? k) l).
+Proof.
+  intros H. rewrite filter_app, map_app. cbn. apply Nat.eqb_neq in H. rewrite H. cbn. apply app_nil_r.
+Qed.
+
 Lemma cross_woken p0 st0 p1 c m m' : cross p0 st0 p1 (Asleep c m) = cross p0 st0 p1 (Woken m').
 Proof. reflexivity. Qed.
 
@@ -43,27 +55,24 @@ Proof.
     + split; [|split]; assumption.
     + intros j Hj. destruct (Nat.eq_dec j i) as [->|Hji].
       * exists pp, Ready, rp, cp. cbn. unfold upd. cbn. rewrite ?Nat.eqb_refl. cbn in Hpk. apply Nat.eqb_eq in Hpk. subst pp.
-        sp; auto.
-        -- rewrite <- Hns. reflexivity.
-        -- intros X. apply Hjn in X. discriminate X.
-        -- split; intro X; [apply Hom in X; discriminate X|discriminate X].
+        sp; auto; try exact Hns; try (intros X; apply Hjn in X; discriminate X);
+          try (split; intro X; [apply Hom in X; discriminate X|discriminate X]).
       * apply (OTH om (or_introl eq_refl) j Hj Hji); [|reflexivity].
-        cbn. unfold upd. destruct (Nat.eqb j i) eqn:EE; [apply Nat.eqb_eq in EE; lia|reflexivity].
+        cbn. unfold upd. cbn. destruct (Nat.eqb j i) eqn:EE; [apply Nat.eqb_eq in EE; lia|reflexivity].
   - (* Ready: one instruction *)
     cbn in Hpk.
     destruct pp as [|[|[|[|[|[|[|pp]]]]]]]; try discriminate Hpk; cbn in E;
-      unfold live, obj_of, M, CV, Q in E; cbn in E; rewrite ?Hal in E; cbn in E.
+      unfold live, obj_of, M, CV, Q in E; cbn in E; rewrite ?Hal in E; cbn in E; rewrite ?Hth in E; cbn in E.
     + (* 0: IBrDone 6 *)
+      match type of E with context [if ?c then _ else _] => destruct c eqn:EB end;
       inversion E; subst s'; clear E.
-      unfold Rex. exists p0, st0, r0, c0, l0, cu0, p1, st1, r1, c1, l1, cu1, om. cbn. unfold upd. cbn.
-      sp; auto.
-      * split; assumption.
-      * split; [|split]; assumption.
-      * intros j Hj. destruct (Nat.eq_dec j i) as [->|Hji].
-        -- destruct (cp =? nth i lims 0); [exists 6, Ready, rp, cp|exists 1, Ready, rp, cp]; cbn; unfold upd; cbn; rewrite ?Nat.eqb_refl; cbn;
-             (sp; auto; split; intro X; [apply Hom in X; discriminate X|discriminate X]).
-        -- apply (OTH om (or_introl eq_refl) j Hj Hji); [|reflexivity].
-           cbn. unfold upd. destruct (Nat.eqb j i) eqn:EE; [apply Nat.eqb_eq in EE; lia|reflexivity].
+      all: unfold Rex; exists p0, st0, r0, c0, l0, cu0, p1, st1, r1, c1, l1, cu1, om; cbn; unfold upd; cbn;
+           sp; auto; try (split; assumption); try (split; [|split]; assumption).
+      all: intros j Hj; destruct (Nat.eq_dec j i) as [Eji|Hji]; [subst j|].
+      all: try (apply (OTH om (or_introl eq_refl) j Hj Hji); [|reflexivity];
+                cbn; unfold upd; cbn; destruct (Nat.eqb j i) eqn:EE; [apply Nat.eqb_eq in EE; lia|reflexivity]).
+      all: do 4 eexists; cbn; unfold upd; cbn; rewrite ?Nat.eqb_refl; cbn; rewrite ?Hth; cbn; sp; try reflexivity; auto.
+      all: split; intro X; [apply Hom in X; discriminate X|discriminate X].
     + (* 1: ILock M *)
       rewrite HOM in E. destruct om as [o|] eqn:Eom; [discriminate E|].
       inversion E; subst s'; clear E.
@@ -76,7 +85,7 @@ Proof.
       * intros j Hj. destruct (Nat.eq_dec j i) as [->|Hji].
         -- exists 2, Ready, rp, cp. cbn. unfold upd. cbn. rewrite ?Nat.eqb_refl. cbn. sp; auto. split; reflexivity.
         -- apply (OTH (Some (S (S i))) (or_intror (or_introl (conj eq_refl eq_refl))) j Hj Hji); [|reflexivity].
-           cbn. unfold upd. destruct (Nat.eqb j i) eqn:EE; [apply Nat.eqb_eq in EE; lia|reflexivity].
+           cbn. unfold upd. cbn. destruct (Nat.eqb j i) eqn:EE; [apply Nat.eqb_eq in EE; lia|reflexivity].
     + (* 2: IPush Q *)
       inversion E; subst s'; clear E.
       unfold Rex. exists p0, st0, r0, c0, l0, cu0, p1, st1, r1, c1, l1, cu1, om. cbn. unfold upd. cbn.
@@ -90,12 +99,11 @@ Proof.
       * intros c Hc. apply in_app_or in Hc. destruct Hc as [Hc|[Hc|[]]]; [apply Hsub; exact Hc|subst c; cbn; lia].
       * intros j Hj. destruct (Nat.eq_dec j i) as [->|Hji].
         -- exists 3, Ready, rp, (S cp). cbn. unfold upd. cbn. rewrite ?Nat.eqb_refl. cbn. sp; auto.
-           rewrite filter_app, map_app. cbn. unfold upd. cbn. rewrite ?Nat.eqb_refl. cbn. cbn in Hsu. rewrite Hsu.
-           rewrite seq_S. reflexivity.
+           apply filt_push. exact Hsu.
         -- destruct (HPR j Hj) as (ppj & stpj & rpj & cpj & Hthj & Hpkj & Hnsj & Hjnj & Homj & Hsuj).
            exists ppj, stpj, rpj, cpj. cbn. unfold upd. cbn. destruct (Nat.eqb j i) eqn:EE; [apply Nat.eqb_eq in EE; lia|].
            cbn in Hthj. sp; auto.
-           rewrite filter_app, map_app. cbn. rewrite EE. cbn. rewrite app_nil_r. exact Hsuj.
+           rewrite filt_push_other by lia. exact Hsuj.
     + (* 3: IUnlock M *)
       assert (Xo : om = Some (S (S i))) by (apply Hom; reflexivity).
       rewrite HOM, Xo in E. rewrite Nat.eqb_refl in E.
@@ -109,25 +117,47 @@ Proof.
       * intros j Hj. destruct (Nat.eq_dec j i) as [->|Hji].
         -- exists 4, Ready, rp, cp. cbn. unfold upd. cbn. rewrite ?Nat.eqb_refl. cbn. sp; auto. split; intro X; discriminate X.
         -- apply (OTH None (or_intror (or_intror (conj Xo eq_refl))) j Hj Hji); [|reflexivity].
-           cbn. unfold upd. destruct (Nat.eqb j i) eqn:EE; [apply Nat.eqb_eq in EE; lia|reflexivity].
+           cbn. unfold upd. cbn. destruct (Nat.eqb j i) eqn:EE; [apply Nat.eqb_eq in EE; lia|reflexivity].
     + (* 4: ISignal CV *)
-      rewrite Hwq0 in E.
-      destruct st1; cbn in E, Hnm1; try (inversion Hnm1; subst);
-        try (unfold wake in E; cbn in E; rewrite Ht1 in E; cbn in E);
+      rewrite Hwq0 in E. destruct (is_asleep st1) eqn:EA.
+      * destruct st1 as [| | |ca ma|mw|]; try discriminate EA. cbn in Hnm1. injection Hnm1 as Hca Hma. subst ca ma.
+        cbn in E. unfold wake in E. cbn in E. rewrite Ht1 in E. cbn in E.
         inversion E; subst s'; clear E.
-      all: unfold Rex.
-      all: match goal with
-           | Ht1 : thr s 1 = mkT 1 _ (Asleep 0 0) _ _ _ _ |- _ =>
-               exists p0, st0, r0, c0, l0, cu0, p1, (Woken 0), r1, c1, l1, cu1, om
-           | Ht1 : thr s 1 = mkT 1 _ ?st _ _ _ _ |- _ =>
-               exists p0, st0, r0, c0, l0, cu0, p1, st, r1, c1, l1, cu1, om
-           end; cbn; unfold upd; cbn; rewrite ?Ht1; cbn.
-      all: sp; auto; try (split; assumption); try (split; [|split]; assumption).
-      all: try (intros r Hr; destruct r as [|[|r]]; try lia; cbn; apply HwqO; lia).
-      all: try (intros j Hj; destruct (Nat.eq_dec j i) as [->|Hji];
-        [ exists 5, Ready, rp, cp; cbn; unfold upd; cbn; rewrite ?Nat.eqb_refl; cbn; sp; auto; split; intro X; [apply Hom in X; discriminate X|discriminate X]
-        | apply (OTH om (or_introl eq_refl) j Hj Hji); [|reflexivity];
-          cbn; unfold upd; cbn; destruct (Nat.eqb j i) eqn:EE; [apply Nat.eqb_eq in EE; lia|reflexivity] ]).
-      Show.
-Abort.
+        unfold Rex. exists p0, st0, r0, c0, l0, cu0, p1, (Woken 0), r1, c1, l1, cu1, om. cbn. unfold upd. cbn. rewrite ?Ht1. cbn.
+        sp; auto; try (split; assumption); try (split; [|split]; assumption).
+        all: try (intros r Hr; destruct r as [|[|r]]; try lia; cbn; apply HwqO; lia).
+        all: intros j Hj; destruct (Nat.eq_dec j i) as [Eji|Hji]; [subst j|].
+        all: try (apply (OTH om (or_introl eq_refl) j Hj Hji); [|reflexivity];
+                  cbn; unfold upd; cbn; destruct (Nat.eqb j i) eqn:EE; [apply Nat.eqb_eq in EE; lia|reflexivity]).
+        all: do 4 eexists; cbn; unfold upd; cbn; rewrite ?Nat.eqb_refl; cbn; rewrite ?Hth; cbn; sp; try reflexivity; auto.
+        all: split; intro X; [apply Hom in X; discriminate X|discriminate X].
+      * cbn in E. inversion E; subst s'; clear E.
+        unfold Rex. exists p0, st0, r0, c0, l0, cu0, p1, st1, r1, c1, l1, cu1, om. cbn. unfold upd. cbn. rewrite ?EA.
+        sp; auto; try (split; assumption); try (split; [|split]; assumption).
+        all: intros j Hj; destruct (Nat.eq_dec j i) as [Eji|Hji]; [subst j|].
+        all: try (apply (OTH om (or_introl eq_refl) j Hj Hji); [|reflexivity];
+                  cbn; unfold upd; cbn; destruct (Nat.eqb j i) eqn:EE; [apply Nat.eqb_eq in EE; lia|reflexivity]).
+        all: do 4 eexists; cbn; unfold upd; cbn; rewrite ?Nat.eqb_refl; cbn; rewrite ?Hth; cbn; sp; try reflexivity; auto.
+        all: split; intro X; [apply Hom in X; discriminate X|discriminate X].
+    + (* 5: IJmp 0 *)
+      inversion E; subst s'; clear E.
+      unfold Rex. exists p0, st0, r0, c0, l0, cu0, p1, st1, r1, c1, l1, cu1, om. cbn. unfold upd. cbn.
+      sp; auto; try (split; assumption); try (split; [|split]; assumption).
+      all: intros j Hj; destruct (Nat.eq_dec j i) as [Eji|Hji]; [subst j|].
+      all: try (apply (OTH om (or_introl eq_refl) j Hj Hji); [|reflexivity];
+                cbn; unfold upd; cbn; destruct (Nat.eqb j i) eqn:EE; [apply Nat.eqb_eq in EE; lia|reflexivity]).
+      all: do 4 eexists; cbn; unfold upd; cbn; rewrite ?Nat.eqb_refl; cbn; rewrite ?Hth; cbn; sp; try reflexivity; auto.
+      all: split; intro X; [apply Hom in X; discriminate X|discriminate X].
+    + (* 6: IEnd *)
+      inversion E; subst s'; clear E.
+      unfold Rex. exists p0, st0, r0, c0, l0, cu0, p1, st1, r1, c1, l1, cu1, om. cbn. unfold upd. cbn.
+      sp; auto; try (split; assumption); try (split; [|split]; assumption).
+      all: intros j Hj; destruct (Nat.eq_dec j i) as [Eji|Hji]; [subst j|].
+      all: try (apply (OTH om (or_introl eq_refl) j Hj Hji); [|reflexivity];
+                cbn; unfold upd; cbn; destruct (Nat.eqb j i) eqn:EE; [apply Nat.eqb_eq in EE; lia|reflexivity]).
+      all: do 4 eexists; cbn; unfold upd; cbn; rewrite ?Nat.eqb_refl; cbn; rewrite ?Hth; cbn; sp; try reflexivity; auto.
+      all: try (intros _; reflexivity).
+      all: split; intro X; [apply Hom in X; discriminate X|discriminate X].
+  - cbn in Hpk. discriminate Hpk.
+Qed.
 End Pr.
